@@ -100,6 +100,7 @@ type SimKnobs struct {
 	Watch    []string `json:"watch,omitempty"`
 	Stdio    int      `json:"stdio,omitempty"` // what stdout is connected to: 0 terminal, 1 pipe, 2 regular file
 	Strategy int      `json:"strategy,omitempty"` // 0 tape picks, 1 PCT-style priorities with change points
+	Dense    bool     `json:"dense,omitempty"`    // the scenario asks for a scheduling choice at every step (contention presets)
 }
 
 func genKnobs(rt *rapid.T) SimKnobs {
@@ -118,8 +119,12 @@ func genKnobs(rt *rapid.T) SimKnobs {
 
 // genTape draws the scheduling tape: mostly zeros (keep running the current
 // task), with a per-run density of non-zero entries (swarm style).
-func genTape(rt *rapid.T, maxLen int) []int {
+func genTape(rt *rapid.T, maxLen int, dense bool) []int {
 	density := rapid.SampledFrom([]int{0, 2, 4, 8, 16, 40, 64}).Draw(rt, "tape_density") // per 64; 64 = a scheduling choice at every step
+	if dense {
+		density = 64
+		maxLen *= 4
+	}
 	n := rapid.IntRange(0, maxLen).Draw(rt, "tape_len")
 	tape := make([]int, n)
 	if density == 0 {
